@@ -37,7 +37,7 @@ def gen_case(rng, i):
     unm = ["%d:%d" % (rng.randrange(2), rng.randrange(2)) for _ in range(rng.choice([0, 0, 1, 1, 2]))]
     facs = ["%d:%d" % (rng.randrange(2), rng.choice([0, 1, 1])) for _ in range(rng.randrange(0, 4))]
     us = rng.randrange(2)
-    ua = rng.randrange(3)
+    ua = rng.choice([0, 1, 2, 0, 1, 2, 3])      # 3: an IPv4-mapped IPv6 literal - an IPv6 destination like any other
     uport = rng.choice(["-", "-", "5060", "5061", "5071"])
     rport = {"-": 5061 if us else 5060}.get(uport, None) or int(uport)
     pre = []
@@ -96,13 +96,13 @@ def oracle(case, impl):
     us, ua, uport = case[5].split(":")[:3]
     secure = us == "1"
     want_port = int(uport) if uport != "-" else (5061 if secure else 5060)
-    addrs = ["10.9.9.9", "10.255.8.255", "[2001:db8::9]"]
+    addrs = ["10.9.9.9", "10.255.8.255", "[2001:db8::9]", "[::ffff:192.0.2.1]"]
     if impl.startswith("ERR"):
         # must fail only if nothing qualifies
         unm = [u.split(":") for u in case[2].split(",") if u]
         facs = [f.split(":") for f in case[3].split(",") if f]
         pre = [p.split(":") for p in case[4].split(",") if p]
-        v6 = ua == "2"
+        v6 = ua in ("2", "3")
         if any((u[1] == "1") == v6 and (not secure or u[0] == "1") for u in unm):
             return ["selection failed although a suitable datagram transport is configured"]
         if any((not secure or f[0] == "1") and f[1] == "1" for f in facs):
@@ -121,7 +121,7 @@ def oracle(case, impl):
     pre = [p.split(":") for p in case[4].split(",") if p]
     if what[0] == "U":
         u = [x.split(":") for x in case[2].split(",") if x][int(what[1:])]
-        if (u[1] == "1") != (ua == "2"):
+        if (u[1] == "1") != (ua in ("2", "3")):
             return ["datagram transport of the wrong address family selected"]
     if what[0] == "R":
         p = pre[int(what[1:])]
